@@ -8,10 +8,14 @@
        matrices (AV.Rot, Section hypotheses D_mul, D_unit, rng_nodup and - for the cascade - the
        z-rotation hypotheses r_diag, rinv_diag, r_char): one node, two-node cascade, coherent sum
        of covariant chains.
-   NOT proved: that ampform's formulated amplitude of an arbitrary topology is an instance of (A)
-   (the bridge from (K) to (A) is proved only for rotations about z, frame_covariant_z); for
-   general rotations, and for the model as a whole, the property is checked on the implementation
-   by bridge/search_C04.py.  That harness REFUTES the multi-topology clause on the current tree
+   (B) the bridge from (K) to (A) for ALL proper rotations (stabiliser argument) is in the separate
+       chain C04_general.v / C04_general_props.v (C04_frame_covariant_general,
+       C04_deeper_frames_invariant_general, C04_boostz_commutes_rotz, C04_cascade_frames_instance,
+       C04_cascade_invariant_general_rotation), compiled after this file so that a failure there
+       cannot mask the obligations below.
+   NOT proved: that the expression returned by formulate() for an arbitrary topology is the
+   amp2-cascade of (A) with these frames; that, three and more nodes, and the model as a whole are
+   checked on the implementation by bridge/search_C04.py.  That harness REFUTES the multi-topology clause on the current tree
    (known finding multi_topology_unaligned_spinless_not_invariant and the aligned variants): a
    chain whose decaying child is the "opposite helicity" state is not covariant in the sense of
    [covariant], so covariant_chains_invariant does not apply to it. *)
